@@ -228,4 +228,30 @@ def r3_loops(ctx):
     r.floor("loops inspected", n, 20)
 
 
-RULES = [r1_inventory, r2_recursion, r3_loops]
+def shared(ctx):
+    """termination of covenant execution and weighing (C11) is part of 'never fail to terminate'"""
+    from rules.engine import core
+    core.import_rules(ctx, [c11.r3_forward_pc, c11.r4_nesting, c11.r5_length_guards, c11.r6_linear_weighing], "X11")
+
+
+RULES = [r1_inventory, r2_recursion, r3_loops, shared]
+
+
+def thorough_extra(ctx):
+    """E5: clippy's restriction lints as a completeness cross-check of the K8 extractor (no verdict of its own)"""
+    from rules.engine import thorough
+    prog = ctx.prog
+    entries, bodies = _scope(prog)
+    # the cross-check compares against *all* bodies of the analysed files, reachable or not
+    allb = [b for b in prog.bodies if b.kind != "Promoted"]
+    sites = panics.inventory(prog, allb)
+    res = thorough.clippy_crosscheck(prog, sites)
+    ctx.extra["clippy_crosscheck"] = res
+    r = ctx.rule("E5", "completeness cross-check: every clippy unwrap_used/expect_used/indexing_slicing/panic site in the analysed files is a site of the K8 inventory")
+    if res["rc"] != 0 and res["clippy_sites"] == 0:
+        r.undecided("clippy", "cargo clippy did not run")
+    elif res["n_gaps"]:
+        r.undecided("gaps", "%d clippy sites are not in the inventory (extractor gap?): %s" % (res["n_gaps"], res["gaps"][:8]))
+    else:
+        r.ok("complete", "%d clippy sites in scope, all known to the inventory" % res["in_scope"])
+    print("  thorough/E5: clippy %d sites (%d in scope), %d not in the K8 inventory" % (res["clippy_sites"], res["in_scope"], res["n_gaps"]))
